@@ -25,7 +25,54 @@ class ParseError(Exception):
     pass
 
 
+PP_TRUE = ("PY_MAJOR_VERSION >= 3", "(SIZEOF_INT < SIZEOF_SIZE_T)", "SIZEOF_INT < SIZEOF_SIZE_T", "1")
+PP_DEFINED = set()          # _MSC_VER, _WIN64, BLAS_NO_UNDERSCORE ... are not defined on the analysed build
+
+
+def strip_pp(text):
+    """resolve preprocessor conditionals inside a statement / argument list the way the
+    analysed (Linux, Python 3, LP64) build does; directive lines are removed"""
+    if "#" not in text:
+        return text
+    out = []
+    stack = []          # (active_before, taken)
+    active = True
+    for line in text.split("\n"):
+        st = line.strip()
+        m = re.match(r"#\s*(if|ifdef|ifndef|elif|else|endif)\b\s*(.*)", st)
+        if not m:
+            if active:
+                out.append(line)
+            continue
+        d, cond = m.group(1), m.group(2).strip()
+        if d in ("if", "ifdef", "ifndef"):
+            if d == "if":
+                val = cond in PP_TRUE
+            elif d == "ifdef":
+                val = cond in PP_DEFINED
+            else:
+                val = cond not in PP_DEFINED
+            stack.append((active, val))
+            active = active and val
+        elif d == "else":
+            if stack:
+                before, taken = stack[-1]
+                active = before and not taken
+                stack[-1] = (before, True)
+        elif d == "elif":
+            if stack:
+                before, taken = stack[-1]
+                val = cond in PP_TRUE
+                active = before and (not taken) and val
+                stack[-1] = (before, taken or val)
+        elif d == "endif":
+            if stack:
+                active = stack.pop()[0]
+    return "\n".join(out)
+
+
 def tokenize(text):
+    text = strip_pp(text)
     out = []
     pos = 0
     while pos < len(text):
@@ -308,8 +355,20 @@ def to_poly(e):
         if l is None or r is None:
             return None
         return l + r if e[1] == "+" else l - r if e[1] == "-" else l * r
+    if k == "call" and e[1] in ("X_NROWS", "MAT_NROWS", "SP_NROWS") and len(e[2]) == 1 and e[2][0][0] == "id":
+        return Poly.sym("%s->nrows" % e[2][0][1])
+    if k == "call" and e[1] in ("X_NCOLS", "MAT_NCOLS", "SP_NCOLS") and len(e[2]) == 1 and e[2][0][0] == "id":
+        return Poly.sym("%s->ncols" % e[2][0][1])
+    if k == "call" and e[1] in ("MAT_LGT", "SP_LGT", "len") and len(e[2]) == 1 and e[2][0][0] == "id":
+        return Poly.sym("len(%s)" % e[2][0][1])
     if k == "call" and e[1] in ("MIN", "MAX") and len(e[2]) == 2:
-        a, b = sorted(unparse(strip_casts(x)) for x in e[2])
+        def _arg(x):
+            x = strip_casts(x)
+            q = to_poly(x)
+            if q is not None and x[0] == "call" and len(q.symbols()) == 1 and repr(q) == list(q.symbols())[0]:
+                return list(q.symbols())[0]         # X_NROWS(A) -> A->nrows inside MAX/MIN
+            return unparse(x)
+        a, b = sorted(_arg(x) for x in e[2])
         return Poly.sym("%s(%s, %s)" % (e[1], a, b))
     if k in ("call", "mem", "idx", "bin", "tern", "un"):
         return Poly.sym(unparse(e))
